@@ -71,12 +71,17 @@ def generate(family, rng, tier, force=None):
         # fixed locations include the upper half of the CSR address space (only reachable when every hop keeps the full address width)
         periphs.append({"name": "per%d" % k, "regs": regs, "loc": rng.choice([None, None, 5 + k, 9 + k, n_locs // 2 + 1 + k, n_locs - 1 - k])})
         # interrupt of the peripheral (a level event source behind an EventManager): none, automatic or a fixed number
+        periphs[-1]["mem_depth"] = rng.choice([None, None, 4, 16])        # a memory mapped into the CSR space (its own window)
         periphs[-1]["irq"] = rng.choice([None, "auto", "auto", [0, 7, 31][k % 3], 12 + k]) if p["with_irq"] else None
     if p["with_irq"] and not any(x["irq"] is not None for x in periphs):
         periphs[0]["irq"] = "auto"      # (a CPU with interrupts and no interrupt source at all makes SoC.finalize() raise: not generated)
     rams = []
     for k in range(rng.randint(1, 2)):
-        rams.append({"name": "ram%d" % k, "origin": 0x20000000 + k * 0x10000000, "size": rng.choice([0x40, 0x100, 0x1000])})
+        rams.append({"name": "ram%d" % k, "origin": 0x20000000 + k * 0x10000000, "size": rng.choice([0x40, 0x100, 0x1000, 0x60, 0x180, 0xc00])})
+    if len(rams) == 2 and rng.random() < 0.3:
+        # the second RAM right behind the first one: inside the decoded (power of two) window of a non power-of-two region this
+        # has to be refused; after a power-of-two region it is fine
+        rams[1]["origin"] = rams[0]["origin"] + rams[0]["size"]
     rom_len = rng.choice([5, 16, 37, 64, 101])
     rom = {"name": "rom0", "origin": 0x10000000, "size": 0x100, "endianness": rng.choice(["little", "big"]),
            "image": [rng.getrandbits(8) for _ in range(rom_len)]}
@@ -109,7 +114,10 @@ def run(scn):
     logging.disable(logging.CRITICAL)
     d = tempfile.mkdtemp(prefix="c14_", dir="/var/tmp")
     try:
-        return _run(scn, d)
+        import contextlib
+        import io
+        with contextlib.redirect_stdout(io.StringIO()):      # the documentation pass prints a note for every CSR memory
+            return _run(scn, d)
     finally:
         shutil.rmtree(d, ignore_errors=True)
         if sys.stderr is None:
@@ -143,6 +151,10 @@ def _run(scn, d):
                     o = CSRStatus(r["size"], name=r["name"])
                 setattr(self, "_" + r["name"], o)
                 objs["%s_%s" % (spec["name"], r["name"])] = (r, o)
+            if spec.get("mem_depth"):
+                from migen import Memory
+                self.buf = Memory(32, spec["mem_depth"], name="buf")
+                self.specials += self.buf
             if spec.get("irq") is not None:
                 from litex.soc.interconnect.csr_eventmanager import EventManager, EventSourceLevel
                 self.trig = Signal(name=spec["name"] + "_trig")
@@ -180,10 +192,18 @@ def _run(scn, d):
             self.add_rom(rom["name"], rom["origin"], rom["size"], contents=get_mem_data(img_file, data_width=32, endianness=rom["endianness"]))
             for k, v in scn["constants"].items():
                 self.add_constant(k, v)
-    soc = MySoC()
+    from litex.soc.integration.soc import SoCError
+    try:
+        soc = MySoC()
+    except SoCError:
+        # the composition was refused with an error (e.g. a region inside the decoded window of another): nothing is exported
+        return {"violations": [], "digest": "refused", "stats": {"checks": 1, "nontrivial": False, "faults": {}, "probes": {"soc_refused": 1}, "cycles": 0}}
     b = Builder(soc, output_dir=d, compile_software=False, compile_gateware=False, csr_json=os.path.join(d, "csr.json"),
                 csr_csv=os.path.join(d, "csr.csv"), csr_svd=os.path.join(d, "csr.svd"))
-    soc.finalize()
+    try:
+        soc.finalize()
+    except SoCError:
+        return {"violations": [], "digest": "refused", "stats": {"checks": 1, "nontrivial": False, "faults": {}, "probes": {"soc_refused": 1}, "cycles": 0}}
     b._generate_includes(with_bios=False)
     b._generate_csr_map()
     gen = os.path.join(d, "software", "include", "generated")
@@ -281,18 +301,43 @@ def _run(scn, d):
                 ops.append({"we": 0, "adr": (csr_base + off) >> 2, "dat": 0, "sel": 15, "gap": 0, "keep_cyc": 0})
             ops[first]["gap"] = 4
             tests.append(("r", name, val, first, len(ops) - 1))
+    # every region is written first (first and last word, distinct values), all of them are read back afterwards: a region that
+    # also answers in another one's window (aliasing) overwrites that one's word
+    ram_writes = []
     for r in scn["rams"]:
         base = mem_hdr[r["name"]]
         size = mem_sz[r["name"]]
         for off, tag in ((0, 0x11110000), (size - 4, 0x22220000)):
             v_ = tag | (len(ops) & 0xffff)
             ops.append({"we": 1, "adr": (base + off) >> 2, "dat": v_, "sel": 15, "gap": 2, "keep_cyc": 0})
-            ops.append({"we": 0, "adr": (base + off) >> 2, "dat": 0, "sel": 15, "gap": 1, "keep_cyc": 0})
-            tests.append(("mem", r["name"], v_, len(ops) - 2, len(ops) - 1))
+            ram_writes.append((r["name"], len(ops) - 1, v_))
+    for (nm_, iw_, v_) in ram_writes:
+        ops.append({"we": 0, "adr": ops[iw_]["adr"], "dat": 0, "sel": 15, "gap": 1, "keep_cyc": 0})
+        tests.append(("mem", nm_, v_, iw_, len(ops) - 1))
+    for r in scn["rams"]:
+        base = mem_hdr[r["name"]]
+        size = mem_sz[r["name"]]
         if p["bus_interconnect"] != "crossbar":
             # one word beyond the region is unmapped: answered by the bus timeout (crossbars have none: C11-F1)
             ops.append({"we": 0, "adr": (base + size) >> 2, "dat": 0, "sel": 15, "gap": 1, "keep_cyc": 0})
             tests.append(("beyond", r["name"], 0, len(ops) - 1, len(ops) - 1))
+    # memories mapped into the CSR space: their published base is where word 0 answers (32-bit CSR bus only)
+    if bw == 32:
+        for spec in scn["periphs"]:
+            if not spec.get("mem_depth"):
+                continue
+            key = spec["name"] + "_buf"
+            checks += 2
+            mm = re.search(r"#define CSR_%s_BASE \(CSR_BASE \+ (0x[0-9a-fA-F]+)L\)" % key.upper(), csr_h)
+            if key not in js.get("csr_bases", {}) or not mm or csr_base + int(mm.group(1), 16) != js["csr_bases"][key]:
+                V("export_mismatch", key, "CSR memory %s: csr.json csr_bases says %s, csr.h says %s" % (key, js.get("csr_bases", {}).get(key), mm.group(1) if mm else None))
+                continue
+            base = js["csr_bases"][key]
+            for off, tag in ((0, 0x33330000), (4 * (spec["mem_depth"] - 1), 0x44440000)):
+                v_ = tag | (len(ops) & 0xffff)
+                ops.append({"we": 1, "adr": (base + off) >> 2, "dat": v_, "sel": 15, "gap": 2, "keep_cyc": 0})
+                tests.append(("csrmem_w", key, v_, len(ops) - 1, len(ops) - 1))
+    csrmem_reads = []
     # interrupts: enable every event through its generated accessor; the triggers are raised one at a time afterwards
     irq_pub = {}
     for name in sorted(irq_periphs):
@@ -308,6 +353,9 @@ def _run(scn, d):
             continue
         for (sh, off) in a["write"]:
             ops.append({"we": 1, "adr": (csr_base + off) >> 2, "dat": (1 >> sh) & 0xffffffff, "sel": 15, "gap": 2, "keep_cyc": 0})
+    for (kind_, key_, v_, i0_, _) in [t_ for t_ in tests if t_[0] == "csrmem_w"]:
+        ops.append({"we": 0, "adr": ops[i0_]["adr"], "dat": 0, "sel": 15, "gap": 1, "keep_cyc": 0})
+        tests.append(("csrmem_r", key_, v_, len(ops) - 1, len(ops) - 1))
     rom = scn["rom"]
     rbase = mem_hdr[rom["name"]]
     nwords = -(-len(rom["image"]) // 4)
@@ -389,6 +437,18 @@ def _run(scn, d):
             size = objs[name][0]["size"]
             if got & ((1 << size) - 1) != val:
                 V("register_read_wrong", name, "%s_read() sequence (csr.h) returns %#x, register holds %#x" % (name, got, val))
+        elif kind == "csrmem_w":
+            # a write into a CSR memory window must not touch any register
+            before = rows[max(res[i0]["issue"] - 2, 0)]
+            after = rows[min(res[i1]["done"] + 3, len(rows) - 1)]
+            checks += len(storages)
+            for n2, i2 in sidx.items():
+                if after[i2] != before[i2]:
+                    V("other_register_changed", n2, "writing word %#x of CSR memory %s changed register %s from %#x to %#x" % (ops[i0]["adr"] << 2, name, n2, before[i2], after[i2]))
+        elif kind == "csrmem_r":
+            checks += 1
+            if res[i1]["dat_r"] != val:
+                V("csr_memory_window", name, "word written at the published address %#x of CSR memory %s reads back %#x (wrote %#x)" % (ops[i0]["adr"] << 2, name, res[i1]["dat_r"], val))
         elif kind == "mem":
             checks += 1
             mems += 1
